@@ -61,7 +61,7 @@ func c16Scenario(c *choice.Ctx, rep *report.R) {
 		if ud.NumConns() > 0 {
 			udpFramesBefore = len(env.QueriesOn(0, ud.ImplEnd(0), false))
 		}
-		tcpDialsBefore := td.Dials
+		tcpDialsBefore := td.NumDials()
 		tcpFrames := func() (n int, last []byte) {
 			for ci := 0; ci < td.NumConns(); ci++ {
 				qs := env.QueriesOn(ci, td.ImplEnd(ci), true)
@@ -143,16 +143,16 @@ func c16Scenario(c *choice.Ctx, rep *report.R) {
 					}
 					wait()
 				}
-			} else if td.Dials == tcpDialsBefore {
+			} else if td.NumDials() == tcpDialsBefore {
 				fail("no-tcp-retry", "UDP reply had TC set but TCP was not even dialled")
 			}
 		} else {
-			if td.Dials != tcpDialsBefore || nTCP != tcpBefore {
+			if td.NumDials() != tcpDialsBefore || nTCP != tcpBefore {
 				fail("tcp-without-tc", "a TCP attempt was made although the UDP reply had no TC flag")
 			}
 		}
 		// run to the deadline
-		time.Sleep(time.Until(cl.deadline))
+		hsleep(time.Until(cl.deadline))
 		wait()
 		if !cl.done {
 			fail("missed-deadline", "exchange did not return by its deadline")
@@ -198,11 +198,11 @@ func c16Scenario(c *choice.Ctx, rep *report.R) {
 			}
 		}
 		obs += cl.String() + ";"
-		time.Sleep(7 * time.Second)
+		hsleep(7 * time.Second)
 		wait()
 	}
 	u.Close()
-	time.Sleep(7 * time.Second)
+	hsleep(7 * time.Second)
 	wait()
 	for _, v := range own.Audit() {
 		fail("ownership", v)
